@@ -13,9 +13,18 @@ use val::Val;
 pub fn main_loop(f: fn(&Val) -> Val) {
     // quiet panics: they are observations, reported in the result value
     std::panic::set_hook(Box::new(|_| {}));
+    // Results go to a private duplicate of fd 1; fd 1 itself is pointed at stderr for the
+    // rest of the process, so that anything the crate under test prints with println!
+    // (e.g. fixed_window.rs on a failed compress) can neither corrupt the result channel
+    // nor block on a stdout lock held by this loop.
+    let mut out = {
+        use std::os::unix::io::FromRawFd;
+        let saved = unsafe { libc::dup(1) };
+        assert!(saved >= 0, "dup(1)");
+        unsafe { libc::dup2(2, 1) };
+        std::io::BufWriter::new(unsafe { std::fs::File::from_raw_fd(saved) })
+    };
     let stdin = std::io::stdin();
-    let stdout = std::io::stdout();
-    let mut out = std::io::BufWriter::new(stdout.lock());
     let mut buf = String::new();
     for line in stdin.lock().lines() {
         let line = line.expect("stdin");
